@@ -1,7 +1,10 @@
 """The broker model.  Semantics assumed (trusted base of the engine-level checks):
 FIFO per queue; default exchange routes by queue name; direct/topic/fanout exchanges with
-bindings; durable/exclusive/auto-delete flags recorded; an exclusive consumer refuses any
-other consumer on that queue (403 ACCESS_REFUSED → channel closed); prefetch per channel;
+bindings; durable/exclusive/auto-delete/internal flags recorded (an internal exchange refuses
+publishes from clients: 403); a passive declaration only probes (404 when absent) and is logged as
+`exchange_probe` / `queue_probe`; every declaration frame carries the channel number it was made on;
+an exclusive consumer refuses any other consumer on that queue (403 ACCESS_REFUSED → channel
+closed); prefetch per channel (`qos` frames);
 delivery tags per channel, counting from 1; on connection loss every unacknowledged delivery
 of its channels is requeued at the *front* of its queue in original order with
 redelivered=True; mandatory + unroutable → Basic.Return; per-message expiration (ms) drops a
@@ -76,11 +79,9 @@ class Broker(object):
         self.now_ms = lambda: 0
         self.log = []               # frame log: dicts
         self.queues = {}
-        self.exchanges = {"": {"type": "direct", "durable": True},
-                          "amq.direct": {"type": "direct", "durable": True},
-                          "amq.topic": {"type": "topic", "durable": True},
-                          "amq.fanout": {"type": "fanout", "durable": True},
-                          "amq.match": {"type": "headers", "durable": True}}
+        self.exchanges = {n: {"type": t, "durable": True, "auto_delete": False, "internal": False, "arguments": None}
+                          for n, t in (("", "direct"), ("amq.direct", "direct"), ("amq.topic", "topic"),
+                                       ("amq.fanout", "fanout"), ("amq.match", "headers"))}
         self.bindings = []          # (exchange, queue, key)
         self.connections = []
         self.pending = []           # broker→client events the scheduler must deliver: ("return", channel, method, props, body) | ("confirm", channel, method)
@@ -110,7 +111,9 @@ class Broker(object):
     # ---- declarations
     def exchange_declare(self, ch, exchange, exchange_type, passive, durable, auto_delete, internal, arguments):
         if passive:
-            if exchange not in self.exchanges:
+            found = exchange in self.exchanges
+            self.frame(op="exchange_probe", conn=ch.connection.ident, ch=ch.channel_number, exchange=exchange, found=found)
+            if not found:
                 return (404, "NOT_FOUND - no exchange '%s' in vhost '/'" % exchange)
             return None
         if exchange in self.exchanges:
@@ -119,9 +122,10 @@ class Broker(object):
                 return (406, "PRECONDITION_FAILED - inequivalent arg 'type' for exchange '%s'" % exchange)
         else:
             self.exchanges[exchange] = {"type": exchange_type, "durable": durable, "auto_delete": auto_delete,
-                                        "arguments": arguments}
-        self.frame(op="exchange_declare", conn=ch.connection.ident, exchange=exchange, type=exchange_type,
-                   durable=durable, auto_delete=auto_delete, arguments=arguments)
+                                        "internal": internal, "arguments": arguments}
+        self.frame(op="exchange_declare", conn=ch.connection.ident, ch=ch.channel_number, exchange=exchange,
+                   type=exchange_type, passive=False, durable=durable, auto_delete=auto_delete, internal=internal,
+                   arguments=arguments)
         return None
 
     def queue_declare(self, ch, queue, passive, durable, exclusive, auto_delete, arguments):
@@ -130,6 +134,7 @@ class Broker(object):
             queue = "amq.gen-%d" % self.anon
         q = self.queues.get(queue)
         if passive:
+            self.frame(op="queue_probe", conn=ch.connection.ident, ch=ch.channel_number, queue=queue, found=q is not None)
             if q is None:
                 return None, (404, "NOT_FOUND - no queue '%s' in vhost '/'" % queue)
             return q, None
@@ -141,8 +146,8 @@ class Broker(object):
                 return None, (405, "RESOURCE_LOCKED - cannot obtain exclusive access to locked queue '%s'" % queue)
             if q.durable != durable or (q.arguments or {}) != (arguments or {}):
                 return None, (406, "PRECONDITION_FAILED - inequivalent arg for queue '%s'" % queue)
-        self.frame(op="queue_declare", conn=ch.connection.ident, queue=queue, durable=durable, exclusive=exclusive,
-                   auto_delete=auto_delete, arguments=arguments)
+        self.frame(op="queue_declare", conn=ch.connection.ident, ch=ch.channel_number, queue=queue, passive=False,
+                   durable=durable, exclusive=exclusive, auto_delete=auto_delete, arguments=arguments)
         return q, None
 
     def queue_bind(self, ch, queue, exchange, routing_key, arguments):
@@ -153,10 +158,16 @@ class Broker(object):
         b = (exchange, queue, routing_key or "")
         if b not in self.bindings:
             self.bindings.append(b)
-        self.frame(op="queue_bind", conn=ch.connection.ident, queue=queue, exchange=exchange, key=routing_key or "")
+        self.frame(op="queue_bind", conn=ch.connection.ident, ch=ch.channel_number, queue=queue, exchange=exchange,
+                   key=routing_key or "", arguments=arguments)
         return None
 
     # ---- consuming
+    def basic_qos(self, ch, prefetch_size, prefetch_count, global_qos):
+        ch.prefetch = prefetch_count
+        self.frame(op="qos", conn=ch.connection.ident, ch=ch.channel_number, prefetch_size=prefetch_size,
+                   prefetch_count=prefetch_count, global_qos=global_qos)
+
     def basic_consume(self, ch, queue, callback, auto_ack, exclusive, tag, arguments):
         q = self.queues.get(queue)
         if q is None:
@@ -164,7 +175,8 @@ class Broker(object):
         if any(c.exclusive for c in q.consumers) or (exclusive and q.consumers):
             return (403, "ACCESS_REFUSED - queue '%s' in vhost '/' in exclusive use" % queue)
         q.consumers.append(ConsumerState(ch, tag, callback, exclusive, auto_ack, arguments))
-        self.frame(op="consume", conn=ch.connection.ident, queue=queue, exclusive=exclusive, arguments=arguments, tag=tag)
+        self.frame(op="consume", conn=ch.connection.ident, ch=ch.channel_number, queue=queue, exclusive=exclusive,
+                   auto_ack=auto_ack, arguments=arguments, tag=tag)
         return None
 
     # ---- publishing
@@ -198,6 +210,9 @@ class Broker(object):
                         queues=list(targets) if targets is not None else None)
         if targets is None:
             ch._closed_by_broker(404, "NOT_FOUND - no exchange '%s' in vhost '/'" % exchange)
+            return
+        if exchange != "" and self.exchanges[exchange].get("internal"):
+            ch._closed_by_broker(403, "ACCESS_REFUSED - cannot publish to internal exchange '%s' in vhost '/'" % exchange)
             return
         for qn in targets:
             self.queues[qn].messages.append(Msg(body, props.copy(), exchange, routing_key, self.now_ms(), self.seq))
@@ -322,8 +337,9 @@ class Broker(object):
         return {"queues": {n: q.describe() for n, q in self.queues.items()},
                 "exchanges": {n: e for n, e in self.exchanges.items() if not n.startswith("amq.") and n != ""},
                 "bindings": list(self.bindings),
-                "consumers": {n: [{"conn": c.channel.connection.ident, "exclusive": c.exclusive,
-                                   "arguments": c.arguments} for c in q.consumers] for n, q in self.queues.items()}}
+                "consumers": {n: [{"conn": c.channel.connection.ident, "ch": c.channel.channel_number,
+                                   "exclusive": c.exclusive, "auto_ack": c.auto_ack, "arguments": c.arguments}
+                                  for c in q.consumers] for n, q in self.queues.items()}}
 
 
 BROKER = Broker()
